@@ -41,17 +41,22 @@ func (c *core) releaseAll() {
 
 // applyCommon executes the actions shared by KV.tla and Flushable.tla; done=false if the op is not one of them.
 func (c *core) applyCommon(act map[string]interface{}) (done bool, err error) {
-	k := decKey(str(act["k"]))
+	// keys and values are handed over in caller-owned buffers with spare capacity that are overwritten as
+	// soon as the call returns: a layer that keeps the slice instead of copying it becomes visible
+	k := spare(decKey(str(act["k"])))
+	v := spare(decVal(str(act["v"])))
+	defer scribble(k)
+	defer scribble(v)
 	switch str(act["op"]) {
 	case "put":
-		err = c.st.Put(k, decVal(str(act["v"])))
+		err = c.st.Put(k, v)
 		c.tick()
 	case "del":
 		err = c.st.Delete(k)
 		c.tick()
 	case "bput":
 		c.ensureBatch()
-		err = c.batch.Put(k, decVal(str(act["v"])))
+		err = c.batch.Put(k, v)
 	case "bdel":
 		c.ensureBatch()
 		err = c.batch.Delete(k)
@@ -103,11 +108,14 @@ func (c *core) buildBatch(ops []interface{}) error {
 	for _, o := range ops {
 		m := obj(o)
 		var err error
+		kb, vb := spare(decKey(str(m["k"]))), spare(decVal(str(m["v"])))
 		if str(m["t"]) == "put" {
-			err = c.batch.Put(decKey(str(m["k"])), decVal(str(m["v"])))
+			err = c.batch.Put(kb, vb)
 		} else {
-			err = c.batch.Delete(decKey(str(m["k"])))
+			err = c.batch.Delete(kb)
 		}
+		scribble(kb)
+		scribble(vb)
 		if err != nil {
 			return err
 		}
